@@ -105,6 +105,8 @@ static void push_unit(actor *a, int u, int k)
     total_pushes++;
     pushes_started[k]++;
     vs_log("apiCall push PW%d %d", k, u);
+    u_pushret[u] = 1e300; /* (this push has not returned yet: what an earlier push of the same unit recorded is void) */
+    u_solo_call[u] = 0;
     ABT_OK(ABT_pool_push_thread(PL[k], U[u]));
     u_pushret[u] = vs_now();
     u_solo_call[u] = (inside_pop[k] == 1 && inside_block[k] == 1) ? inside_call_id[k] : 0;
